@@ -1,10 +1,11 @@
 """C03 - TemporalHypergraph keeps (time, hyperedge) records; windows/snapshots agree."""
-from checks.containers import run_container, explore
+from checks.containers import run_container, explore, explore_kimpl
 from harness.verdict import Result
 
 
 def run(tier, seed):
     res = Result("C03", tier, seed, "model_checking")
+    explore_kimpl(res, "temp", tier)
     explore(res, "temp", tier, module="MC_Derive",
             invariants=["TypeOK", "WindowPartition", "SnapshotUnion", "HalfOpen"],
             configs=[dict(n=2, maxw=2, batches=False, metaops=False, xs=[0, 1, 2] if tier == "thorough" else [0, 1])])
